@@ -77,7 +77,57 @@ fn check_iterators(out: &mut Out, src: &str, tree: &Node, occ: &[(char, String)]
     cmp(out, "iter_read_variable_identifiers_mut", m(&|t| t.iter_read_variable_identifiers_mut().map(|x| x.clone()).collect()), &['r']);
     cmp(out, "iter_write_variable_identifiers_mut", m(&|t| t.iter_write_variable_identifiers_mut().map(|x| x.clone()).collect()), &['w']);
     cmp(out, "iter_function_identifiers_mut", m(&|t| t.iter_function_identifiers_mut().map(|x| x.clone()).collect()), &['f']);
-    out.evals(10);
+    // a partially advanced iterator finished through the adaptor methods (fold / for_each / last / count / nth)
+    let all = names_of(occ, &['r', 'w', 'f']);
+    for k in 0..=all.len().min(3) {
+        let rest: Vec<String> = all[k.min(all.len())..].to_vec();
+        let got = guard(|| {
+            let mut it = tree.iter_identifiers();
+            for _ in 0..k {
+                it.next();
+            }
+            let mut a: Vec<String> = Vec::new();
+            it.for_each(|x| a.push(x.to_string()));
+            let mut it = tree.iter_identifiers();
+            for _ in 0..k {
+                it.next();
+            }
+            let b: Vec<String> = it.fold(Vec::new(), |mut acc, x| {
+                acc.push(x.to_string());
+                acc
+            });
+            let mut it = tree.iter_identifiers();
+            for _ in 0..k {
+                it.next();
+            }
+            let last = it.last().map(|x| x.to_string());
+            let cnt = tree.iter_identifiers().skip(k).count();
+            let nth = tree.iter_variable_identifiers().nth(k).map(|x| x.to_string());
+            let rev_total = tree.iter().count();
+            (a, b, last, cnt, nth, rev_total)
+        });
+        match got {
+            Ok((a, b, last, cnt, nth, _)) => {
+                let want_nth = names_of(occ, &['r', 'w']).get(k).cloned();
+                if a != rest || b != rest || last != rest.last().cloned() || cnt != rest.len() || nth != want_nth {
+                    ok = false;
+                    out.violation(
+                        "iterators/partially-advanced",
+                        format!("{}  (iter_identifiers advanced by {} then for_each / fold / last / count; iter_variable_identifiers().nth({}))", src, k, k),
+                        format!("{:?} / last {:?} / count {} / nth {:?}", rest, rest.last(), rest.len(), want_nth),
+                        format!("for_each {:?} / fold {:?} / last {:?} / count {} / nth {:?}", a, b, last, cnt, nth),
+                    );
+                    break;
+                }
+            },
+            Err(p) => {
+                ok = false;
+                out.violation("panic", format!("iterator adaptors on `{}`", src), "returns".into(), api::panic_text(&p));
+                break;
+            },
+        }
+    }
+    out.evals(14);
     ok
 }
 
@@ -173,7 +223,7 @@ fn check_case(out: &mut Out, ast: &Ast, mode: Parens, r: &mut Rng) {
     let base_vars = api::ctx_vars(&ctx);
 
     // renaming: consistently through the mutable iterators and in the context
-    let scheme = r.below(4);
+    let scheme = r.below(5);
     let names: Vec<String> = {
         let mut v: Vec<String> = occ.iter().map(|o| o.1.clone()).collect();
         v.sort();
@@ -191,6 +241,8 @@ fn check_case(out: &mut Out, ast: &Ast, mode: Parens, r: &mut Rng) {
                     0 => n.clone(),
                     1 => format!("r_{}", n),
                     2 => format!("{}_{}", n, i * 7 + 1),
+                    // underscores and digits only: still an identifier
+                    3 => format!("_{}", i * 3 + 1),
                     _ => format!("ω{}", i),
                 }
             };
@@ -232,6 +284,50 @@ fn check_case(out: &mut Out, ast: &Ast, mode: Parens, r: &mut Rng) {
     if let Err(p) = renamed {
         out.violation("panic", format!("renaming `{}`", src), "returns".into(), api::panic_text(&p));
         return;
+    }
+    // renaming in the source text must give the very tree the mutable iterators produced
+    if mode == 0 {
+        fn rename_ast(a: &Ast, ren: &dyn Fn(&str) -> String) -> Ast {
+            match a {
+                Ast::Read(n) => Ast::Read(ren(n)),
+                Ast::Assign(o, t, r) => Ast::Assign(o, ren(t), Box::new(rename_ast(r, ren))),
+                Ast::Call(f, x) => Ast::Call(ren(f), Box::new(rename_ast(x, ren))),
+                Ast::Un(o, x) => Ast::Un(o, Box::new(rename_ast(x, ren))),
+                Ast::Group(x) => Ast::Group(Box::new(rename_ast(x, ren))),
+                Ast::Bin(o, l, r) => Ast::Bin(o, Box::new(rename_ast(l, ren)), Box::new(rename_ast(r, ren))),
+                Ast::Tuple(v) => Ast::Tuple(v.iter().map(|x| rename_ast(x, ren)).collect()),
+                Ast::Chain(v) => Ast::Chain(v.iter().map(|x| rename_ast(x, ren)).collect()),
+                other => other.clone(),
+            }
+        }
+        let renamed_src = render_spaced(&render_ast(&rename_ast(ast, &ren), Parens::Full, None, false));
+        if let Built::Tree(t3) = api::build(&renamed_src) {
+            let full = match api::build(&render_spaced(&render_ast(ast, Parens::Full, None, false))) {
+                Built::Tree(t) => Some(t),
+                _ => None,
+            };
+            if let Some(mut f) = full {
+                for id in f.iter_identifiers_mut() {
+                    *id = ren(id);
+                }
+                out.eval();
+                if format!("{:?}", f) != format!("{:?}", t3) {
+                    out.violation(
+                        "iterators/renaming-differs-from-source-renaming",
+                        format!("{}  renamed by {:?}", src, map),
+                        format!("the tree of `{}`: {}", renamed_src, crate::refmodel::parse::node_sx(&t3)),
+                        crate::refmodel::parse::node_sx(&f),
+                    );
+                }
+            }
+        } else {
+            out.violation(
+                "iterators/renamed-source-rejected",
+                format!("{}  renamed by {:?}", src, map),
+                "precompiles like the original".into(),
+                format!("`{}` is rejected", renamed_src),
+            );
+        }
     }
     let mut m2 = Model::new();
     m2.builtins_off = model.builtins_off;
